@@ -64,6 +64,8 @@ type c16Vec struct {
 	// pluckj: an arrangement of o, p = o.pluck(keys), o.d, p.d and what json() of it must parse to
 	Shape *c16Tree `json:"shape"`
 	Want  *c16Tree `json:"want"`
+	// pluckk: Args are the key arguments (strings and numbers), Keys the keys they name, Idx what o[arg] reads
+	Idx []*c05Val `json:"idx"`
 }
 
 // c16Tree: an arrangement (leaf o|p|od|pd, arr, obj) or its unfolding (pairs, val, arr, obj) (MC_Methods.Unfold).
@@ -149,6 +151,11 @@ type c16Case struct {
 	NumbVal  float64        `json:"numb_val,omitempty"`
 	JSONWant any            `json:"json_want,omitempty"` // pluckj: what the text json() returns must parse to
 	Seeded   bool           `json:"seeded,omitempty"`
+	IdxWant  []any          `json:"idx_want,omitempty"` // pluckk: what [o[k1], o[k2], ...] must print
+	HasIdx   bool           `json:"has_idx,omitempty"`
+	// splith (MC_SplitHist): the program prints one JSON text per line
+	Sub       string `json:"sub,omitempty"`
+	JSONLines []any  `json:"json_lines,omitempty"`
 }
 
 // c16Reader reads the length-prefixed lines the split / str programs print.
@@ -373,6 +380,19 @@ func c16Pairs(ps []c16Pair) (lit string, m map[string]any) {
 	return "{" + strings.Join(parts, ", ") + "}", m
 }
 
+// c16PairsQ: as c16Pairs, for keys that are not identifiers (written as string literals).
+func c16PairsQ(ps []c16Pair) (lit string, m map[string]any) {
+	m = map[string]any{}
+	parts := []string{}
+	for _, p := range ps {
+		k := symsToBytes(p.Key)
+		v := c05Concrete(p.Val)
+		m[string(k)] = c16ValAny(v)
+		parts = append(parts, c16Quote(k)+": "+c05Lit(v, "x"))
+	}
+	return "{" + strings.Join(parts, ", ") + "}", m
+}
+
 func c16KeyArgs(keys []string) string {
 	q := make([]string, len(keys))
 	for i, k := range keys {
@@ -396,9 +416,11 @@ func checkC16(c *Ctx) {
 	c.Assume("numeric strings: decimal grammar only (Go's hex, inf/nan and underscore spellings are outside the model); magnitudes within 1e-300..1e300")
 	pool := c.Pool()
 
-	maxLen, caseLen := 4, 3
+	maxLen, caseLen, keyLen := 4, 3, 2
+	histOps, histVars, nestLen := 3, 3, 5
 	if c.Thorough() {
-		maxLen, caseLen = 6, 4
+		maxLen, caseLen, keyLen = 6, 4, 3
+		histOps, histVars, nestLen = 4, 3, 7
 	}
 	caseTab := map[string][2]string{} // the model's case table: character -> upper, lower (caseless characters map to themselves)
 	var cmu sync.Mutex
@@ -587,10 +609,42 @@ func checkC16(c *Ctx) {
 				fail("pluck-json", fmt.Sprintf("json() gave %s, expected %s", c16JSON(got), c16JSON(cs.JSONWant)))
 				return
 			}
+		case "splith":
+			var got []any
+			dec := json.NewDecoder(bytes.NewReader(r.Stdout))
+			for dec.More() {
+				var line any
+				if err := dec.Decode(&line); err != nil {
+					fail(cs.Sub, "unreadable output")
+					return
+				}
+				got = append(got, line)
+			}
+			if len(got) != len(cs.JSONLines) {
+				fail(cs.Sub, fmt.Sprintf("%d lines printed, expected %d", len(got), len(cs.JSONLines)))
+				return
+			}
+			for i := range got {
+				if !reflect.DeepEqual(got[i], cs.JSONLines[i]) {
+					fail(cs.Sub, fmt.Sprintf("line %d is %s; every result of split must still be what its call returned: expected %s", i+1, c16JSON(got[i]), c16JSON(cs.JSONLines[i])))
+					return
+				}
+			}
 		case "pluck", "proto":
 			p1, ok1 := c16ParseObj(rd.line())
 			o1, ok2 := c16ParseObj(rd.line())
 			okAll := ok1 && ok2
+			if cs.HasIdx {
+				var idx []any
+				if err := json.Unmarshal([]byte(rd.line()), &idx); err != nil {
+					fail("pluck-output", "unreadable output (members read by index)")
+					return
+				}
+				if len(idx) != len(cs.IdxWant) || (len(idx) > 0 && !reflect.DeepEqual(idx, cs.IdxWant)) {
+					fail("object-index", fmt.Sprintf("the members read with the same keys are %s, expected %s", c16JSON(idx), c16JSON(cs.IdxWant)))
+					return
+				}
+			}
 			plen := -1
 			var o2 map[string]any
 			if !cs.NoLen {
@@ -625,7 +679,13 @@ func checkC16(c *Ctx) {
 		default:
 			infra("C16: family %q", cs.Fam)
 		}
-		count("cases " + cs.Fam)
+		if cs.Fam == "splith" {
+			count("cases " + cs.Sub)
+		} else if cs.HasIdx {
+			count("cases pluck with string and number keys")
+		} else {
+			count("cases " + cs.Fam)
+		}
 		c.Case(cs.Prog+"\x00"+cs.Doc, true)
 		nsample++
 		if nsample%4999 == 1 {
@@ -781,6 +841,52 @@ func checkC16(c *Ctx) {
 				c16TreeText(v.Shape, map[string]string{"o": "$.o", "p": "p", "od": "$.o.d", "pd": "p.d"}) + ") }"
 			cs2.Doc = `{"o": ` + c16JSON(owant) + `}`
 			submit(cs2)
+		case "pluckk":
+			var res []c16Pair
+			if err := json.Unmarshal(v.Res, &res); err != nil {
+				infra("C16: pluck result: %v", err)
+			}
+			olit, owant := c16PairsQ(v.Obj)
+			_, rwant := c16PairsQ(res)
+			if len(v.Args) != len(v.Keys) || len(v.Args) != len(v.Idx) {
+				infra("C16: pluckk vector %s", raw)
+			}
+			idxWant := make([]any, len(v.Idx))
+			lits := make([]string, len(v.Args))
+			docArgs := make([]any, len(v.Args))
+			refs := [3][]string{}
+			pre := ""
+			for i, a := range v.Args {
+				av := c05Concrete(a)
+				idxWant[i] = c16ValAny(c05Concrete(v.Idx[i]))
+				lits[i] = c05Lit(av, "k")
+				docArgs[i] = c16ValAny(av)
+				// harness-side sanity: the key the model derives for a number is the text Go prints for it
+				if key := string(symsToBytes(v.Keys[i])); (av.Kind == "num" && key != c05Fmt(av.F)) || (av.Kind == "str" && key != string(av.S)) {
+					infra("C16: the model names the key %q for the argument %s", key, lits[i])
+				}
+				pre += fmt.Sprintf("k%d = %s; ", i, lits[i])
+				refs[0] = append(refs[0], lits[i])
+				refs[1] = append(refs[1], fmt.Sprintf("k%d", i))
+				refs[2] = append(refs[2], fmt.Sprintf("$.k[%d]", i))
+			}
+			body := func(obj string, args []string) string {
+				idx := make([]string, len(args))
+				for i, a := range args {
+					idx[i] = obj + "[" + a + "]"
+				}
+				return "p = " + obj + ".pluck(" + strings.Join(args, ", ") + "); print p; print " + obj + "; print [" + strings.Join(idx, ", ") + "]; print p.length(); p.a = 99; p.zz = 1; print " + obj
+			}
+			cs := c16Case{Fam: "pluck", ObjWant: owant, ResWant: rwant, IdxWant: idxWant, HasIdx: true}
+			cs.Desc = fmt.Sprintf("%s.pluck(%s) (literal keys)", olit, strings.Join(lits, ", "))
+			cs.Prog = "BEGIN { o = " + olit + "; " + body("o", refs[0]) + " }"
+			submit(cs)
+			cs.Desc = fmt.Sprintf("%s.pluck(%s) (keys in variables)", olit, strings.Join(lits, ", "))
+			cs.Prog = "BEGIN { o = " + olit + "; " + pre + body("o", refs[1]) + " }"
+			submit(cs)
+			cs.Desc = fmt.Sprintf("%s.pluck(%s) (object and keys of the document)", olit, strings.Join(lits, ", "))
+			cs.Prog, cs.Doc = "{ "+body("$.o", refs[2])+" }", c16JSON(map[string]any{"o": owant, "k": docArgs})
+			submit(cs)
 		case "pluck", "proto":
 			var res []c16Pair
 			if err := json.Unmarshal(v.Res, &res); err != nil {
@@ -862,10 +968,23 @@ func checkC16(c *Ctx) {
 		}
 	}
 	res := c.TLC(TLCOpt{Module: "MC_Methods",
-		Cfg:     cfgText("INIT Init", "NEXT Next", fmt.Sprintf("CONSTANTS MaxLen = %d CaseLen = %d", maxLen, caseLen), "INVARIANT Laws", "INVARIANT Vec", "CHECK_DEADLOCK FALSE"),
+		Cfg:     cfgText("INIT Init", "NEXT Next", fmt.Sprintf("CONSTANTS MaxLen = %d CaseLen = %d KeyLen = %d", maxLen, caseLen, keyLen), "INVARIANT Laws", "INVARIANT Vec", "CHECK_DEADLOCK FALSE"),
 		Workers: 8, Heap: "6g", OnVec: onVec})
 	if res.Vectors == 0 {
 		infra("C16: TLC emitted no vectors")
+	}
+
+	// ---- (1b) histories of split calls whose results stay alive (MC_SplitHist: a transition system)
+	hres := c.TLC(TLCOpt{Module: "MC_SplitHist",
+		Cfg: cfgText("INIT Init", "NEXT Next", fmt.Sprintf("CONSTANTS MaxOps = %d NVars = %d NestLen = %d", histOps, histVars, nestLen),
+			"INVARIANT Laws", "INVARIANT Vec", "PROPERTY Frame", "CHECK_DEADLOCK FALSE"),
+		Workers: 8, Heap: "6g", OnVec: func(raw []byte) {
+			for _, cs := range c16HistCases(raw) {
+				submit(cs)
+			}
+		}})
+	if hres.Vectors == 0 {
+		infra("C16: TLC emitted no vectors for MC_SplitHist")
 	}
 
 	// ---- (2) seeded instantiation: the LAWS on real outputs for arbitrary
@@ -885,7 +1004,41 @@ func checkC16(c *Ctx) {
 	}
 	sort.Strings(tabChars)
 	for i := 0; i < n; i++ {
-		switch rng.Intn(11) {
+		switch rng.Intn(12) {
+		case 11: // several results of split alive at once: each is still what its call returned after all the calls
+			alpha := c16RandAlphabet(rng)
+			ncalls := 2 + rng.Intn(4)
+			var docCalls []map[string]string
+			var want []any
+			var names, stmts []string
+			for k := 0; k < ncalls; k++ {
+				sep := c16RandText(rng, alpha, 1, 2)
+				var sb strings.Builder
+				for q, parts := 0, rng.Intn(6); q <= parts; q++ {
+					sb.WriteString(c16RandText(rng, alpha, 0, 3))
+					if q < parts {
+						sb.WriteString(sep)
+					}
+				}
+				s := sb.String()
+				if !c16NoOverlap(c16Occurrences([]byte(s), []byte(sep)), len(sep)) {
+					s = strings.ReplaceAll(s, sep, "") // (keeps the decomposition unique)
+					if strings.Contains(s, sep) || !c16NoOverlap(c16Occurrences([]byte(s), []byte(sep)), len(sep)) {
+						s = ""
+					}
+				}
+				var pieces []any
+				for _, pc := range c16LeftmostSplit([]byte(s), []byte(sep)) {
+					pieces = append(pieces, string(pc))
+				}
+				want = append(want, pieces)
+				docCalls = append(docCalls, map[string]string{"s": s, "sep": sep})
+				names = append(names, fmt.Sprintf("r%d", k))
+				stmts = append(stmts, fmt.Sprintf("r%d = $.c[%d].s.split($.c[%d].sep)", k, k, k))
+			}
+			submit(c16Case{Fam: "splith", Sub: "split-history", Seeded: true, JSONLines: []any{want},
+				Desc: fmt.Sprintf("seeded: %d results of split held in variables, all printed after the last call: %s", ncalls, c16JSON(docCalls)),
+				Prog: "{ " + strings.Join(stmts, "; ") + "; print json([" + strings.Join(names, ", ") + "]) }", Doc: c16JSON(map[string]any{"c": docCalls})})
 		case 6: // text over ASCII and the characters of the model's case table: upper/lower byte for byte
 			var sb strings.Builder
 			for k, m := 0, rng.Intn(10); k < m; k++ {
@@ -1019,7 +1172,7 @@ func checkC16(c *Ctx) {
 			}
 			submit(cs)
 		case 5: // pluck
-			keyPool := []string{"a", "b", "k1", "name", "id", "x_y", "Z", "é"}
+			keyPool := []string{"a", "b", "k1", "name", "id", "x_y", "Z", "é", "0", "1", "2", "10", "-1", c05Fmt(float64(rng.Intn(64)-32) / 8), c05Fmt(float64(rng.Intn(1 << 20)))}
 			obj := map[string]any{}
 			for _, k := range keyPool {
 				if rng.Intn(2) == 0 {
@@ -1028,17 +1181,24 @@ func checkC16(c *Ctx) {
 			}
 			keys := make([]string, rng.Intn(6))
 			want := map[string]any{}
+			args := []any{} // the key arguments: a key that is the text of a number is passed as that number half of the time
+			refs := make([]string, len(keys))
 			for k := range keys {
 				keys[k] = keyPool[rng.Intn(len(keyPool))]
 				if rng.Intn(5) == 0 {
-					keys[k] = []string{"nope", "A", "k2", ""}[rng.Intn(4)]
+					keys[k] = []string{"nope", "A", "k2", "", "3", "0.5"}[rng.Intn(6)]
 				}
 				want[keys[k]] = obj[keys[k]]
+				args = append(args, keys[k])
+				if f, err := strconv.ParseFloat(keys[k], 64); err == nil && c05Fmt(f) == keys[k] && !(f == 0 && math.Signbit(f)) && rng.Intn(2) == 0 {
+					args[k] = f
+				}
+				refs[k] = fmt.Sprintf("$.k[%d]", k)
 			}
 			submit(c16Case{Fam: "pluck", ObjWant: obj, ResWant: want, Seeded: true,
-				Desc: fmt.Sprintf("seeded: %s.pluck(%s)", c16JSON(obj), c16KeyArgs(keys)),
-				Prog: "{ p = $.o.pluck(" + c16KeyArgs(keys) + "); print p; print $.o; print p.length(); p.a = 99; p.zz = 1; print $.o }",
-				Doc:  c16JSON(map[string]any{"o": obj})})
+				Desc: fmt.Sprintf("seeded: %s.pluck(%s) (keys of the document: strings and numbers)", c16JSON(obj), strings.Trim(c16JSON(args), "[]")),
+				Prog: "{ p = $.o.pluck(" + strings.Join(refs, ", ") + "); print p; print $.o; print p.length(); p.a = 99; p.zz = 1; print $.o }",
+				Doc:  c16JSON(map[string]any{"o": obj, "k": args})})
 		}
 	}
 	st.Wait()
